@@ -13,7 +13,7 @@ from .. import model as MD
 from .. import observe as O
 from .. import pipeline as P
 from ..compare import diff
-from ..core import h64, vacuity
+from ..core import h64, hash_seed_reruns, vacuity
 from ..model import M, ModelRefuse
 
 LEVEL = 'model_checking'
@@ -206,6 +206,8 @@ def run(run):
                           'functions': FUNCS, 'hash_seed': __import__('os').environ.get('PYTHONHASHSEED')}
     vacuity(run, ['clause:fast-path', 'clause:general-path', 'clause:list-form', 'clause:grand-total',
                   'clause:empty-intersection-refused'])
+    if not run.quick:
+        hash_seed_reruns(run, (1, 2))
     run.assumptions += ['id order of the result is not part of the property (sets compared)',
                         'None metadata functions only with union/union (documented as the fast merge)',
                         'custom metadata function never invents metadata for ids that have none in either operand']
